@@ -175,8 +175,9 @@ def structural(tier, res):
                 al = ['self']
             if cname in ('TransactionEvaluator', 'ExpressionEvaluator') and n.name == '__init__':
                 al = ['self']
-            if n.name == '_fn_regex':
-                al = ['_regex_cache']
+            # the statement confines writes to the evaluator scope and the two module caches; WHICH function may write a cache, and with which
+            # key, is the representation invariant of C07, not a confinement question
+            al = al + ['_regex_cache', '_expression_cache']
             out.extend(frames.check_assigns(fi, set(al), {'from_transaction', 'get_function', 'evaluate', 'fromisoformat', '_parse_date_string',
                                                            'SequenceMatcher', 'compile', 'get_by', 'get_payments', 'normalize'}))
     for fn, names, attrs, al in (('parse_expression', {'validate_ast', 'ExpressionError'}, {'parse', 'catch_warnings', 'filterwarnings'}, ['_expression_cache']),
